@@ -89,7 +89,8 @@ def _gen_seqs(rng, kind):
         alph = None
         letters = {"protein": PROT + ("BZX*" if rng.random() < 0.3 else ""), "nuc": NUC, "nuc_amb": NUC_AMB}[t]
     rows = []
-    base = [rng.choice(letters) for _ in range(rng.randint(1, 12))]
+    maxlen = rng.choice([12, 12, 12, 12, 85, 170])  # long sequences wrap in the FASTA files exchanged with the tool
+    base = [rng.choice(letters) for _ in range(rng.randint(1, maxlen))]
     for i in range(n):
         if mode == "equal":
             r = list(base)
@@ -98,9 +99,9 @@ def _gen_seqs(rng, kind):
         elif mode == "related":
             r = [c for c in base if rng.random() < 0.8] or [base[0]]
         else:
-            r = [rng.choice(letters) for _ in range(rng.randint(1, 12))]
+            r = [rng.choice(letters) for _ in range(rng.randint(1, maxlen))]
         rows.append(r if t == "custom" else "".join(r))
-    return {"type": t, "rows": rows, "alphabet": alph}
+    return {"type": t, "rows": rows, "alphabet": alph, "container": rng.choice(["list", "list", "tuple"])}
 
 
 def _gen_script(rng, kind, faulty):
@@ -344,6 +345,8 @@ def _make_sequences(sspec, ctor_fault):
     else:
         alph = Alphabet(sspec["alphabet"])
         seqs = [GeneralSequence(alph, [sspec["alphabet"][c] for c in r]) for r in rows]
+    if sspec.get("container") == "tuple" and ctor_fault != "mixed_alphabets":
+        seqs = tuple(seqs)
     if ctor_fault == "one_seq":
         seqs = seqs[:1]
     elif ctor_fault == "mixed_alphabets":
